@@ -39,7 +39,7 @@ for pid in [f"C{i:02d}" for i in range(1, 21)]:
             "evidence_file": f"evidence/{pid}.json",
             "replay_cmd_template": f"./check {pid} --replay {{path}}",
             "engine": "gqsa",
-            "level_claimed": {"category": "other", "text": c["text"], "design_ref": c["ref"]},
+            "level_claimed": {"category": "other", "text": c["text"] + (" " + claims.EXTRA[pid] if pid in getattr(claims, "EXTRA", {}) else ""), "design_ref": c["ref"]},
             "level_note": c["note"],
             "technique": c["technique"],
         })
